@@ -64,6 +64,12 @@ structure Cfg where
 def Cfg.pinned : Cfg := ⟨false, false, false, false, false, false, none⟩
 def Cfg.patched : Cfg := ⟨true, true, true, true, true, true, none⟩
 
+/-- every configuration that has the four fixes the *belief* invariant depends on (F02, F03, F78,
+F79); the clone flag fix (F17), the bulk notifications and the ambient `allow_partial` scope are
+free. `Cfg.patched = Cfg.fixedWith true true none`. -/
+def Cfg.fixedWith (listCloneSealed notifyBulk : Bool) (scope : Option Bool) : Cfg :=
+  ⟨true, true, listCloneSealed, true, true, notifyBulk, scope⟩
+
 /-- The object classes: 0 and 1 are the test classes of the harness (fields `k0 k1` / `k0 k1 k2`,
 all `Any`, default None, `allow_symbolic_assignment = True`); 2 is `pg.Ref`, 3 is
 `pg.symbolic.ValueFromParentChain` (no symbolic fields, not assignable). -/
@@ -282,6 +288,7 @@ structure Forest where
   nextId : Nat
   aliased : Bool := false       -- set when a step had to put one node object in two places
   pool : List Tree := []        -- node objects moved during the current call (still addressable)
+  consumed : Bool := false      -- the value being replaced (`pending`) has been moved into the new value
   deriving Repr, Inhabited
 
 namespace Forest
@@ -345,11 +352,11 @@ def relocateRef (cfg : Cfg) (f : Forest) (pending : Option Nat) (par : Option Na
     | none => (f, .leaf .none)
   | some (.leaf a) => (f, .leaf a)
   | some (.node m its) =>
-    if pending == some id then
+    if pending == some id && !f.consumed then
       -- the value being replaced by this very call: the dict has detached it (parent None, path
       -- root) before it formalizes the new value, so it is moved; it leaves its slot when the
-      -- new value is stored
-      ({ f with pool := f.pool ++ [.node m its] },
+      -- new value is stored (offered a second time it has a parent and is copied)
+      ({ f with pool := f.pool ++ [.node m its], consumed := true },
        ((((Tree.node m its).setParent none).setPath []).setPath p).setParent par)
     else if m.parent.isNone || (!holderObj && m.parent == par && m.path == p) then
       let t := ((Tree.node m its).setPath p).setParent par
@@ -414,11 +421,13 @@ end
 
 inductive Err where
   | index | key | value | type | perm | attr | assertion
+  | cycle      -- the written container was moved into the offered value: pyglove does not return
   deriving DecidableEq, Repr, Inhabited
 
 def Err.name : Err → String
   | .index => "IndexError" | .key => "KeyError" | .value => "ValueError"
   | .type => "TypeError" | .perm => "WritePermissionError" | .attr => "AttributeError"
   | .assertion => "AssertionError"
+  | .cycle => "Hang"
 
 end Pg.Sym
